@@ -204,6 +204,23 @@ func init() {
 				if cs.Explicit["iri"] != nil {
 					exp["iri"] = cs.Explicit["iri"]
 				}
+				if fn == "Of" {
+					// AddTo on a fresh value of the same shape
+					it2 := c15Value(cs.Kind, cs.IDs, cs.C, cs.Explicit)
+					var iri ap.IRI
+					var status bool
+					guard(func() { iri, status = ap.CollectionPath(cs.C).AddTo(it2) })
+					after := ""
+					guard(func() {
+						if cs.Kind != "iri" {
+							if r := ap.CollectionPath(cs.C).Of(it2); r != nil && (cs.Explicit["k"] != "none" || status) {
+								after = string(r.GetLink())
+							}
+						}
+					})
+					w.Write(J{"ev": "addto", "kind": cs.Kind, "id": cs.ID, "c": cs.C, "explicit": exp, "res": parsePres(string(iri)), "status": status,
+						"after": parsePres(after), "ids": cs.IDs})
+				}
 				w.Write(J{"ev": "of", "fn": fn, "kind": cs.Kind, "id": cs.ID, "c": cs.C, "explicit": exp, "res": parsePres(res),
 					"ids": cs.IDs, "exps": fmt.Sprint(cs.Explicit["s"])})
 			}
